@@ -2,6 +2,7 @@ import OdakProofs.Lemmas.Slicing
 import OdakProofs.Lemmas.GenSlicers
 import OdakProofs.Lemmas.GenDefocus
 import OdakProofs.Lemmas.GenLossObjects
+import OdakProofs.Lemmas.LossObjectsInst
 
 /-! # C16 – depth-plane slicing partitions the image exactly
   `multiplane_loss.set_targets` / `perceptual_multiplane_loss.set_targets` (masks by rounded depth)
@@ -457,5 +458,74 @@ theorem C16_gen_loss_call_history_independent (E : LossObjOps T R) (o : MplObj T
   refine ⟨h', e, ?_, ?_⟩
   · rw [gen_mplCallG_eq E o h' tv fv dv mv inv', gen_mplCallG_eq E o h tv fv dv mv inv]; cases mplLoss E o mv image target plane <;> simp
   · rw [gen_mplCallG_eq E o h' tv fv dv mv inv']; cases mplLoss E o mv image target plane <;> simp
+
+end Odak
+
+/-! ## The regenerated `multiplane_loss` object INSTANTIATED with the regenerated slicers (work package 16)
+  The object theorems above are abstract over a record `LossObjOps` whose `sliceTargets` stands for "what `set_targets` computes"; the
+  partition theorems of the first sections are about the per-pixel slicers.  Here the record is `lossOpsGrid`
+  (`OdakModel/LossObjectsInst.lean`): `sliceTargets` IS the regenerated per-pixel slicers applied to every pixel of the tensors the caller
+  passed.  One statement, no uninterpreted operation: what `get_targets` of the regenerated object returns, for every list of calls. -/
+namespace Odak
+open Gen
+
+/-- **`get_targets` of the regenerated object, for every call list, returns targets that partition the image.**  A `multiplane_loss` is
+    built by the regenerated `__init__` from the caller's image `ti` (`[C, H, W]`) and depth map `td` (`[H, W]`, values in `[0, 1]`), `n >= 1`
+    planes.  There are tensors `tv, fv, dv, mv` such that in ANY list of calls (`get_targets`, `__call__`, the caller overwriting any tensor
+    he can name) every `get_targets` returns copies of `(tv, fv, dv / divider)` and every `__call__` reads the masks `mv`, and at every
+    pixel: the all-in-focus target `fv` is the image; the quantised depth `dv` is a plane index `< n`; in every channel exactly one plane
+    has mask 1 and every mask is 0 or 1; and (without defocus blur) the target of plane `k` is image times mask of plane `k` - so the
+    plane targets sum to the image and no pixel is in two planes -/
+theorem C16_gen_object_targets_partition_every_call_list (a : MplArgs ℝ) (h : Heap (Ten ℝ)) (o : MplObj (Ten ℝ) ℝ) (h' : Heap (Ten ℝ))
+    (hi : mplInit lossOpsGrid a h = some (o, h')) (ti td : Ten ℝ) (hti : h.get a.target_image = some ti) (htd : h.get a.target_depth = some td)
+    (n : Nat) (hn : a.number_of_planes = (n : Int)) (hn1 : 1 ≤ n) (hdep : ∀ i j, 0 ≤ (td.el [i, j]).re ∧ (td.el [i, j]).re ≤ 1) :
+    ∃ tv fv dv mv : Ten ℝ, mplInitCall lossOpsGrid a h = some (o.toSelf, h', (), mplInitLog a) ∧
+      (∀ (xs : List (LCall (Ten ℝ))) (zs : List (LRet (Ten ℝ))), (∀ x ∈ xs, x.valid o) →
+        runSteps (mplRefStep lossOpsGrid o tv fv dv mv) () xs = some ((), zs) →
+        ∃ h'', runSteps (mplStep lossOpsGrid) (o.toSelf, h') xs = some ((o.toSelf, h''), zs)) ∧
+      (∀ (ch : Nat) (i j : Int), fv.el [(ch : Int), i, j] = ⟨(ti.el [(ch : Int), i, j]).re, 0⟩) ∧
+      (∀ i j : Int, ∃ p : Nat, p < n ∧ dv.el [i, j] = ⟨(p : ℝ), 0⟩) ∧
+      (∀ (ch : Nat) (i j : Int), (∃! k : Nat, k < n ∧ mv.el [(k : Int), (ch : Int), i, j] = ⟨1, 0⟩) ∧
+        ∀ k : Nat, k < n → mv.el [(k : Int), (ch : Int), i, j] = ⟨0, 0⟩ ∨ mv.el [(k : Int), (ch : Int), i, j] = ⟨1, 0⟩) ∧
+      (a.scheme ≠ "defocus" → ∀ (k ch : Nat) (i j : Int),
+        tv.el [(k : Int), (ch : Int), i, j] = ⟨(ti.el [(ch : Int), i, j]).re * (mv.el [(k : Int), (ch : Int), i, j]).re, 0⟩) := by
+  obtain ⟨inv, -⟩ := mplInit_inv_values lossOpsGrid a h o h' hi ti td hti htd
+  rw [hn] at inv
+  refine ⟨(if a.scheme = "defocus" then (lossOpsGrid.defocusTargets a.blurSize ti (lossOpsGrid.sliceTargets td (n : Int) ti).2.1 (n : Int) a.blur_ratio
+        (lossOpsGrid.sliceTargets td (n : Int) ti).2.2.2 a.multiplier).2 else (lossOpsGrid.sliceTargets td (n : Int) ti).2.1),
+    (lossOpsGrid.sliceTargets td (n : Int) ti).2.2.1, (lossOpsGrid.sliceTargets td (n : Int) ti).1, (lossOpsGrid.sliceTargets td (n : Int) ti).2.2.2,
+    gen_mplInitG_eq lossOpsGrid a h o h' hi, fun xs zs hv href => ?_, fun ch i j => ?_, fun i j => ?_, fun ch i j => ?_, fun hs k ch i j => ?_⟩
+  · obtain ⟨h'', e, -⟩ := mpl_run lossOpsGrid o _ _ _ _ xs h' inv hv zs href
+    exact ⟨h'', e⟩
+  · rw [sliceTargets_focus_el]
+    have := (C16_gen_targets_sum_to_image n hn1 (td.el [i, j]).re (hdep i j).1 (hdep i j).2 (pixelImage ti i j) ch).2.1
+    rw [this]; rfl
+  · rw [sliceTargets_depth_el]
+    obtain ⟨p, hp, e, -⟩ := C16_gen_round_is_plane_index n hn1 (td.el [i, j]).re (hdep i j).1 (hdep i j).2 (pixelImage ti i j)
+    exact ⟨p, hp, by rw [e]⟩
+  · obtain ⟨⟨⟨k0, ⟨hk0, hm0⟩, huniq⟩, h01⟩, -⟩ := C16_gen_masks_partition n hn1 (td.el [i, j]).re (hdep i j).1 (hdep i j).2 (pixelImage ti i j) ch
+    refine ⟨⟨k0, ⟨hk0, by rw [sliceTargets_mask_el, hm0]⟩, ?_⟩, fun k hk => ?_⟩
+    · rintro k ⟨hk, hm⟩
+      rw [sliceTargets_mask_el] at hm
+      exact huniq k ⟨hk, by injection hm⟩
+    · rw [sliceTargets_mask_el]
+      rcases h01 k hk with e | e
+      · left; rw [e]
+      · right; rw [e]
+  · simp only [hs, if_false]
+    rw [sliceTargets_target_el, sliceTargets_mask_el]
+    rw [(C16_gen_targets_sum_to_image n hn1 (td.el [i, j]).re (hdep i j).1 (hdep i j).2 (pixelImage ti i j) ch).1 k]
+    rfl
+
+/-- in the reference semantics of the previous theorem `get_targets` always has a value: the copies of `(tv, fv, dv / divider)` -/
+theorem C16_gen_object_get_targets_value (o : MplObj (Ten ℝ) ℝ) (tv fv dv mv : Ten ℝ) :
+    mplRefStep lossOpsGrid o tv fv dv mv () .getTargets =
+      some ((), .targets tv fv (lossOpsGrid.div dv (lossOpsGrid.int (if o.number_of_planes - 1 = 0 then 1 else o.number_of_planes - 1)))) := rfl
+
+/-- non-vacuity: for any image and depth tensors of the caller the regenerated `__init__` with the grid-model operations builds the object
+    (four planes, no defocus blur) -/
+example (ti td : Ten ℝ) :
+    (mplInit (lossOpsGrid : LossObjOps (Ten ℝ) ℝ) ⟨0, 1, 1 / 4, 10, 4, [1, 1, 1], 1, "naive", "mean"⟩ ⟨[ti, td]⟩).isSome = true := by
+  simp [mplInit, Heap.get]
 
 end Odak
